@@ -122,6 +122,13 @@ func (p *Program) FuncContract(fn *ssa.Function) *Contract {
 	if c, ok := p.cs.Contracts["extern:"+externName(fn)]; ok {
 		return c
 	}
+	// instantiations of a generic function share the contract of the generic
+	// (golang.org/x/exp/maps.Keys[map[string]T] -> golang.org/x/exp/maps.Keys)
+	if n := externName(fn); strings.Contains(n, "[") {
+		if c, ok := p.cs.Contracts["extern:"+n[:strings.Index(n, "[")]]; ok {
+			return c
+		}
+	}
 	return nil
 }
 
